@@ -186,6 +186,43 @@ def check(P: Project, R: Report) -> None:
     # … or a comprehension over the same items
     iters += [g for n in ast.walk(dump) if isinstance(n, (ast.DictComp, ast.ListComp, ast.GeneratorExp)) for g in n.generators if ast.unparse(g.iter) == "self.__dict__.items()"]
     R.ob("R2", "fallback dump iterates the instance dict (extras included)", len(iters) == 1, f"{base.rel}:{dump.lineno}", "")
+    # … and leaves a member out only because the caller asked for it (include / exclude / exclude_none)
+    opts = [a.arg for a in dump.args.args + dump.args.kwonlyargs if a.arg not in ("self", "by_alias")]
+    loop_body = None
+    if iters and isinstance(iters[0], ast.For):
+        loop_body = iters[0].body
+    elif iters:
+        comp = next(n for n in ast.walk(dump) if isinstance(n, (ast.DictComp, ast.ListComp, ast.GeneratorExp)) and iters[0] in n.generators)
+        if len(comp.generators) == 1 and isinstance(comp, ast.DictComp):
+            # the comprehension read as the loop it abbreviates
+            loop_body = [ast.If(test=ast.UnaryOp(op=ast.Not(), operand=c), body=[ast.Continue()], orelse=[]) for c in iters[0].ifs]
+            loop_body.append(ast.Assign(targets=[ast.Subscript(value=ast.Name(id="result__", ctx=ast.Load()), slice=comp.key, ctx=ast.Store())], value=comp.value, lineno=comp.lineno))
+            loop_body = [ast.fix_missing_locations(ast.copy_location(x, comp)) for x in loop_body]
+    if loop_body is not None:
+        from ..paths import run_paths as _rp
+
+        def _emit(stmt, st, an2):
+            if isinstance(stmt, ast.Assign) and any(isinstance(t, ast.Subscript) and isinstance(t.ctx, ast.Store) for t in stmt.targets):
+                return "emit"
+            if isinstance(stmt, ast.Expr) and isinstance(stmt.value, ast.Call) and call_name(stmt.value).split(".")[-1] in ("update", "setdefault", "__setitem__"):
+                return "emit"
+            return None
+
+        la, lo = _rp(ast.Module(body=loop_body, type_ignores=[]), stmt_event_of=_emit, fallible=False)
+        n_skip = 0
+        for st in list(lo.cont) + list(lo.normal):
+            if "emit" in st.events:
+                continue
+            n_skip += 1
+            asked = sorted(l for l in st.lits if any(l == o or l.startswith((f"{o} is not None", f"{o} and ", f"len({o})")) for o in opts))
+            about = sorted(l[:60] for l in st.lits)[:6]
+            R.ob("R2", "fallback dump leaves a member out only at the caller's request (include / exclude / exclude_none)", bool(asked), f"{base.rel}:{dump.lineno}",
+                 f"a member of the instance dict is skipped under {about} — no caller option is involved: an unknown wire member with such a name is lost when the object is serialised back",
+                 sample=f"R2 member skipped only under `{asked[0] if asked else ''}`")
+        R.need(n_skip >= 1 or not opts, "anchor: the fallback dump has caller options but no path that leaves a member out")
+        R.extra["fallback_dump_skip_paths"] = n_skip
+    elif iters:
+        raise AnalysisError("the fallback dump walks the instance dict in a form this rule does not read")
     # ------------------------------------------------------------------ R3
     n_alias = 0
     for q, m in sorted(T.models.items()):
